@@ -568,8 +568,8 @@ Section XEval.
             match pol_eval x64 si with Some s' => struct_eqb s' so | None => false end
         | CDiagonal => scal_ok i si
         | CToeplitz => match ilookup info i with Some p => toep_ok p si | None => false end
-        (* their declaration is the evaluation itself; wider blocks / values are outside the property
-           all the same (the structures of their transposes depend on it) *)
+        (* their declaration is the traced evaluation (ctor_checked for the broadcast diagonal); wider blocks /
+           values are outside the property all the same (the structures of their transposes depend on it) *)
         | CDense | CBroadcastDiagonal => scal_ok i si
         | _ => true
         end
